@@ -460,7 +460,42 @@ def _check_module_expr(rep: Report, rule: str, fn: Function, call: ast.Call, arg
                     return
             rep.ok(rule, sub, f"variable bound to constant(s) {[const_str(d) for d in consts]}", loc)
             return
-    rep.ok(rule, sub, f"dynamic module expression `{norm(arg)[:60]}` (no generator/foreign constant reaches it)", loc)
+    # any other expression: every module-name literal that can flow into it (conditional-expression arms, `or` operands, every
+    # definition of the locals it mentions, values of dict displays) must pass the allow-list
+    from sa.match import Locals as _Lm
+
+    LM = _Lm(fn.node) if not isinstance(fn.node, ast.Lambda) else None
+    seen_names: Set[str] = set()
+    lits: List[str] = []
+
+    def collect(e: ast.AST, d: int = 0) -> None:
+        """module-name literals in *value* positions of the expression (not lookup keys, attribute names or compared literals)"""
+        if isinstance(e, ast.Constant) and isinstance(e.value, str):
+            if re.fullmatch(r"\.*[A-Za-z_][\w]*(\.[A-Za-z_][\w]*)*", e.value):
+                lits.append(e.value)
+        elif isinstance(e, ast.IfExp):
+            collect(e.body, d)
+            collect(e.orelse, d)
+        elif isinstance(e, ast.BoolOp):
+            for v in e.values:
+                collect(v, d)
+        elif isinstance(e, ast.JoinedStr):
+            if e.values and isinstance(e.values[0], ast.Constant) and str(e.values[0].value).split(".")[0]:
+                lits.append(str(e.values[0].value).split(".")[0])
+        elif isinstance(e, ast.BinOp) and isinstance(e.op, ast.Add):
+            collect(e.left, d)
+        elif isinstance(e, ast.Name) and LM is not None and e.id not in seen_names and d < 3:
+            seen_names.add(e.id)
+            for _, v, _ in LM.defs.get(e.id, []):
+                if v is not None:
+                    collect(v, d + 1)
+
+    collect(arg)
+    badl = [(l, classify_module(l)[1]) for l in lits if not classify_module(l)[0]]
+    if badl:
+        rep.violation(rule, sub, f"{fn.fq}|register|{badl[0][0]}", f"the module expression `{norm(arg)[:50]}` can evaluate to `{badl[0][0]}`, which {badl[0][1]}", loc)
+        return
+    rep.ok(rule, sub, f"dynamic module expression `{norm(arg)[:60]}` (literals that can reach it: {sorted(set(lits)) or 'none'})", loc)
 
 
 # ------------------------------------------------------------------------------------------------ R12.6 nobody rewrites the runtime copies
